@@ -263,7 +263,7 @@ func c05Exec(c *hlib.RunCtx, t *simrt.Tape) (*hlib.Violation, int) {
 		s.MaxSteps = 200000
 	}
 	w.finishRun(100000)
-	if w.viol == nil && !deleter && dirState != 4 {
+	if w.viol == nil && !deleter {
 		w.checkFaultConservation()
 	}
 	for k, n := range s.FaultsHit {
@@ -304,10 +304,27 @@ func (w *world) checkFaultConservation() {
 		}
 	}
 	pend := w.pending(true)
+	// A failure may make the process it happens in keep counts in memory or drop
+	// them; it never adds anything and never costs another process its counts.
+	failed := map[*simrt.Proc]bool{}
+	for _, fc := range w.s.CallLog {
+		if fc.Injected && fc.Proc != nil {
+			failed[fc.Proc] = true
+		}
+	}
 	for n, b := range w.begun {
-		if pers[n]+pend[n] != b {
-			w.fail("fault-conservation", "counter %q: file holds %d, %d pending in memory, %d were added", short(n), pers[n], pend[n], b)
+		var floor uint64
+		for pr, by := range w.begunBy {
+			if !failed[pr] {
+				floor += by[n]
+			}
+		}
+		if have := pers[n] + pend[n]; have > b || have < floor {
+			w.fail("fault-conservation", "counter %q: file holds %d, %d pending in memory; %d were added, %d of them by processes none of whose calls failed", short(n), pers[n], pend[n], b, floor)
 			return
+		}
+		if have := pers[n] + pend[n]; have != b {
+			w.s.Probe("counts-dropped-after-a-failure")
 		}
 	}
 	for n, v := range pers {
